@@ -32,8 +32,8 @@ def C20_statement (G : Engine) (nodes : List ENode) : Prop :=
     ∀ n ∈ nodes, ∀ f, engineFails G true n = some f → f.isC20 = false
 
 /-- **C20.**  Hypotheses: the unit table is convertible; uod command names are unique and are not keywords, published
-    system commands are keywords (`NamesOk`); the internal patterns are anchored, the `Base` pattern is sound,
-    `REGEX_INT ⇒ int()` (`OraclesOk`); the two parses of every line fit together (`parseAgree`); no uod command has a
+    system commands are keywords (`NamesOk`); the internal patterns are anchored, `re.search` on the published `Base`
+    pattern is `acceptBase`, `REGEX_INT ⇒ int()` (`OraclesOk`, each clause true of the real `re`/`int` for every string); the two parses of every line fit together (`parseAgree`); no uod command has a
     custom (non-regex) argument parser. -/
 theorem C20_accept (G : Engine) (nodes : List ENode)
     (hC : G.units.Convertible = true) (hN : NamesOk G) (hO : OraclesOk G)
@@ -96,7 +96,8 @@ def demoEngine (cmds : List UodCmd) (searchT : List (String × String)) : Engine
     examples := ["Base", "Wait", "Watch", "Simulate"],
     specs := [("Base", "^\\s*(L|h|min|s|mL|CV|DV|g|kg)\\s*$"), ("Wait", "^wait$"), ("Watch", ""), ("Simulate", "")],
     baseUnits := ["s", "min", "h"], keywords := ["Base", "Wait", "Watch", "Simulate", "Mark"],
-    search := fun r a => searchT.contains (r, a), matchP := fun r a => searchT.contains (r, a),
+    search := fun r a => searchT.contains (r, a) || (r == baseRegex ["s", "min", "h"] && acceptBase ["s", "min", "h"] a),
+    matchP := fun r a => searchT.contains (r, a) || (r == baseRegex ["s", "min", "h"] && acceptBase ["s", "min", "h"] a),
     customOk := fun _ _ => false, intOk := fun _ => false, similar := fun _ _ => false, units := OPM.Gen.unitSys }
 
 def pumpLine (args : String) : ENode :=
@@ -114,7 +115,7 @@ def simulateLine (tag unit : String) : ENode :=
    .simulate, true, ""⟩
 
 def regexCmds : List UodCmd := [⟨"Pump", .regex rxPump⟩, ⟨"Note", .default⟩]
-def demoSearch : List (String × String) := [(rxPump, "5 %"), (baseRegex ["s", "min", "h"], "min")]
+def demoSearch : List (String × String) := [(rxPump, "5 %")]
 
 -- non-vacuity: a clean method exists (hypothesis and conclusion of `C20_accept` are both inhabited) …
 example : analyzerItems (demoEngine regexCmds demoSearch) true
@@ -168,8 +169,10 @@ theorem demo_namesOk (cmds : List UodCmd) (h : cmds = regexCmds ∨ cmds = custo
 theorem C20_counterexample_custom_parser : ¬ C20_full := by
   intro h
   have hs := h (demoEngine customCmds []) [pumpLine "abc"] table_convertible (demo_namesOk _ (Or.inr rfl) _)
-    ⟨fun _ _ _ _ hs => by simp [demoEngine] at hs, fun _ hs => by simp [demoEngine] at hs,
-     fun _ _ _ hs => by simp [demoEngine] at hs⟩
+    ⟨fun _ _ _ _ hs => hs, fun a => by simp [demoEngine], by simp [demoEngine],
+     fun r _ hl _ => by
+       have hn : (demoEngine customCmds []).specs.lookup "Run counter" = none := by decide
+       rw [hn] at hl; cases hl⟩
     (by decide +kernel) (by decide +kernel) (pumpLine "abc") (List.mem_singleton.mpr rfl) .badArgument (by decide +kernel)
   cases hs
 
